@@ -160,6 +160,16 @@ class G:
         if kind == 'wild':
             return ('wild', r.choice(['dot', 'br'])), rep
         if kind == 'multi':
+            if r.random() < 0.3 and cur is not None and cur[0] == 'o' and cur[1]:
+                # more names than the object has members: all its keys in a shuffled (non-ascending) order, an absent name
+                # in between and a repeated one — the results must come in the order written, duplicates kept
+                keys = [k for k, _ in cur[1]]
+                r.shuffle(keys)
+                items = keys[:4] + [b'zz9'] + ([r.choice(keys)] if r.random() < 0.7 else [])
+                r.shuffle(items)
+                if r.random() < 0.5:
+                    items = sorted(items, reverse=True)
+                return ('multi', items), rep
             n = r.randint(2, 3)
             items = []
             for _ in range(n):
@@ -283,7 +293,7 @@ class G:
             lhs = self.gen_operand(cur, root, funcs=funcs)
             while lhs[0] == 'lit':
                 lhs = self.gen_operand(cur, root, funcs=funcs)
-            return ('re', lhs, r.choice([b'^a', b'b$', b'^x$', b'a', b'.', b'^$', b'[0-9]+', b'a|y', b'B', b'\\/']))
+            return ('re', lhs, r.choice([b'^a', b'b$', b'^x$', b'a', b'.', b'^$', b'[0-9]+', b'a|y', b'B', b'\\/', b'^ab$', b'^a$', b'^bc$', b'^b$', b'^1$', b'^ab', b'bc$']))
         op = r.choice(['==', '==', '!=', '<', '<=', '>', '>='])
         numeric = op in ('<', '<=', '>', '>=')
         lhs = self.gen_operand(cur, root, numeric, funcs)
@@ -538,6 +548,10 @@ def refs_family(g, jnum=False, opaque_kinds=None):
         # the deep-only kind comes first: it gets the largest weight, so both sides of `==` often hold it
         strict = [k for k in ('freshptr', 'ifacestruct') if k in opaque_kinds]   # equal only by reflect.DeepEqual; `==` differs or panics
         ks = ([r.choice(strict)] if strict else []) + ([r.choice(deep)] if deep else []) + r.sample(opaque_kinds, 1)
+        # foreign types that merely look numeric (they have json.Number's conversion method): never numbers for a comparison
+        numlike = [k for k in ('fixed', 'ptrfixed') if k in opaque_kinds]
+        if numlike and r.random() < 0.5:
+            ks.append(r.choice(numlike))
         pool = [('x', k) for k in ks] + [('n', 1.0), ('s', b'x')]
     elif r.random() < 0.15:
         # containers on both sides of path == path: empty array vs empty object, one-element containers of either kind
@@ -547,7 +561,7 @@ def refs_family(g, jnum=False, opaque_kinds=None):
         nums = r.sample([0.0, 1.0, 2.0, 3.0, 5.0, 1.5, -1.0, 10.0], 3)
         pool = [(('j', fmt_num_literal(x).decode()) if jnum else ('n', x)) for x in nums] + \
                [('s', r.choice([b'x', b'1', b'ab'])), ('b', True), ('z',)]
-    w = [5, 4, 3, 1, 1, 1][:len(pool)]
+    w = [5, 4, 3, 2, 1, 1, 1][:len(pool)]
     members = []
     for i in range(r.randint(2, 6)):
         m = [(b'u', ('n', float(100 + i)))]
